@@ -26,6 +26,7 @@ def lstep : LSt → Ev → Option LSt
   | .run, .allocFail => some .failed
   | .run, .lostMark n => if n > 0 then some .marked else none
   | .marked, .kept _ => some .normal
+  | .run, .lostReport n => if n > 0 then some .normal else none   -- the thread ends: trailing loss reported
   | _, _ => none
 
 def lrun : LSt → List Ev → Option LSt
@@ -35,11 +36,43 @@ def lrun : LSt → List Ev → Option LSt
     | some st' => lrun st' l
     | none => none
 
-/-- counts of the LOST markers in the log -/
+/-- counts of the LOST markers in the log (what the file carries) -/
 def marks : List Ev → List Nat
   | [] => []
   | .lostMark n :: l => n :: marks l
   | _ :: l => marks l
+
+/-- counts of all LOST reports: the markers (each comes with a LOST message) and the message at the end of the thread -/
+def reports : List Ev → List Nat
+  | [] => []
+  | .lostMark n :: l => n :: reports l
+  | .lostReport n :: l => n :: reports l
+  | _ :: l => reports l
+
+def nDropped : List Ev → Nat
+  | [] => 0
+  | .dropped _ :: l => nDropped l + 1
+  | _ :: l => nDropped l
+
+theorem reports_append (a b : List Ev) : reports (a ++ b) = reports a ++ reports b := by
+  induction a with
+  | nil => simp [reports]
+  | cons e l ih => cases e <;> simp [reports, ih]
+
+theorem nDropped_append (a b : List Ev) : nDropped (a ++ b) = nDropped a + nDropped b := by
+  induction a with
+  | nil => simp [nDropped]
+  | cons e l ih => cases e <;> simp [nDropped, ih] <;> omega
+
+theorem nDropped_map (rs : List Rec) : nDropped (rs.map Ev.dropped) = rs.length := by
+  induction rs with
+  | nil => rfl
+  | cons r l ih => simp [nDropped, ih]
+
+theorem reports_map (rs : List Rec) : reports (rs.map Ev.dropped) = [] := by
+  induction rs with
+  | nil => rfl
+  | cons r l ih => simpa [reports] using ih
 
 theorem lrun_append (st : LSt) (a b : List Ev) :
     lrun st (a ++ b) = (lrun st a).bind (fun st' => lrun st' b) := by
@@ -65,7 +98,7 @@ def PcOk (pc : Pc) (losts : Nat) (curr : Option Nat) (st : LSt) : Prop :=
 
 structure LInv (p : Prod) : Prop where
   ex : ∃ st, lrun .normal p.log = some st ∧ PcOk p.pc p.losts p.curr st
-  msgs : p.lostMsgs = marks p.log
+  msgs : p.lostMsgs = reports p.log
 
 /-- LInv depends on these fields only -/
 theorem LInv.congr {p p' : Prod} (h : LInv p) (h1 : p'.pc = p.pc) (h2 : p'.log = p.log) (h3 : p'.losts = p.losts)
@@ -118,6 +151,58 @@ theorem lostInv_send {s : State} {m : Msg} (h : LostInv s) : LostInv (s.send m) 
   · exact h
   · exact lostInv_same h rfl
 
+theorem lostInv_finishCore {s s' : State} {t : Tid} (h : LostInv s) (hs : finishCore s t = some s') :
+    LostInv s' ∧ (s'.prod t).pc = .idle := by
+  simp only [finishCore] at hs
+  split at hs
+  · rename_i hg
+    simp only [Bool.and_eq_true, beq_iff_eq] at hg
+    obtain ⟨_, hpc⟩ := hg
+    obtain ⟨⟨st, hst, hok⟩, hm⟩ := h t
+    simp only [PcOk, hpc] at hok
+    have key : ∀ o, LInv { s.prod t with done := true, curr := none, opn := o } := by
+      intro o
+      refine ⟨⟨st, hst, ?_⟩, hm⟩
+      show PcOk (s.prod t).pc (s.prod t).losts none st
+      rw [hpc]; simp only [PcOk]
+      rcases hok with h1 | ⟨h1, h2, _⟩
+      · exact Or.inl h1
+      · exact Or.inr ⟨h1, h2, trivial⟩
+    cases hc : (s.prod t).curr with
+    | none =>
+      simp only [hc] at hs; injection hs with hs; subst hs
+      exact ⟨lostInv_setProd h (key _), by simpa using hpc⟩
+    | some c =>
+      simp only [hc] at hs
+      have ite_some : ∀ (c : Prop) [Decidable c] (A B : State),
+          (if c then some A else some B) = some s' → s' = A ∨ s' = B := by
+        intro c _ A B h; split at h <;> injection h with h <;> simp [h]
+      rcases ite_some _ _ _ hs with e | e
+      · subst e; exact ⟨lostInv_send (lostInv_setProd h (key _)), by simpa [send_prod] using hpc⟩
+      · subst e; exact ⟨lostInv_setProd h (key _), by simpa using hpc⟩
+  · simp at hs
+
+theorem lostInv_reportTail {cfg : Cfg} {s : State} {t : Tid} (h : LostInv s) (hpc : (s.prod t).pc = .idle) :
+    LostInv (reportTail cfg t s) := by
+  unfold reportTail
+  simp only []
+  split
+  · rename_i hg
+    simp only [Bool.and_eq_true, decide_eq_true_eq] at hg
+    have hl := hg.1.2
+    apply lostInv_send
+    apply lostInv_setProd h
+    obtain ⟨⟨st, hst, hok⟩, hm⟩ := h t
+    simp only [PcOk, hpc] at hok
+    have hst' : st = .run := by
+      rcases hok with ⟨_, h0⟩ | ⟨e, _⟩
+      · omega
+      · exact e
+    refine ⟨⟨.normal, ?_, by simp [PcOk, hpc]⟩, by simp [reports_append, reports, hm]⟩
+    rw [lrun_append, hst, hst']
+    simp [lrun, lstep, hl]
+  · exact h
+
 theorem lostInv_step {cfg : Cfg} {s s' : State} {a : Action} (hi : Inv s) (h : LostInv s)
     (hs : step cfg s a = some s') :
     LostInv s' := by
@@ -166,7 +251,7 @@ theorem lostInv_step {cfg : Cfg} {s s' : State} {a : Action} (hi : Inv s) (h : L
           exact ⟨⟨st, hst, by simpa [PcOk] using hok⟩, hm⟩
         · injection hs with hs; subst hs
           apply lostInv_setProd h
-          refine ⟨⟨.normal, ?_, by simp [PcOk, hok.2]⟩, by simp [marks_append, marks, hm]⟩
+          refine ⟨⟨.normal, ?_, by simp [PcOk, hok.2]⟩, by simp [reports_append, reports, hm]⟩
           rw [lrun_append, hst]
           rcases hok.1 with e | e <;> simp [e, lrun, lstep]
     · simp at hs
@@ -180,7 +265,7 @@ theorem lostInv_step {cfg : Cfg} {s s' : State} {a : Action} (hi : Inv s) (h : L
         simp only [PcOk, hpc] at hok
         injection hs with hs; subst hs
         apply lostInv_setProd h
-        refine ⟨⟨.normal, ?_, by simp [PcOk, hok.2]⟩, by simp [marks_append, marks, hm]⟩
+        refine ⟨⟨.normal, ?_, by simp [PcOk, hok.2]⟩, by simp [reports_append, reports, hm]⟩
         rw [lrun_append, hst]
         rcases hok.1 with e | e <;> simp [e, lrun, lstep]
     · simp at hs
@@ -221,7 +306,8 @@ theorem lostInv_step {cfg : Cfg} {s s' : State} {a : Action} (hi : Inv s) (h : L
             exact lostInv_setProd h ⟨⟨st, hst, by simpa [PcOk] using hok⟩, hm⟩
           · injection hs with hs; subst hs
             apply lostInv_setProd h
-            refine ⟨⟨.run, ?_, by simp [PcOk]⟩, by simp [marks_append, marks, hm]⟩
+            refine ⟨⟨.run, ?_, by simp only [PcOk]; right; exact ⟨trivial, by split <;> omega, trivial⟩⟩,
+              by simp [reports_append, reports, hm]⟩
             rw [lrun_append, hst]
             rcases hok with ⟨e, _⟩ | ⟨e, _⟩ <;> simp [e, lrun, lstep]
     · simp at hs
@@ -253,7 +339,7 @@ theorem lostInv_step {cfg : Cfg} {s s' : State} {a : Action} (hi : Inv s) (h : L
             rcases hok with ⟨_, h0⟩ | ⟨e, _⟩
             · omega
             · exact e
-          refine ⟨⟨.marked, ?_, by simp [PcOk]⟩, by simp [marks_append, marks, hm]⟩
+          refine ⟨⟨.marked, ?_, by simp [PcOk]⟩, by simp [reports_append, reports, hm]⟩
           rw [lrun_append, hst, hst']
           simp [lrun, lstep, hl]
         · rename_i hl
@@ -266,23 +352,7 @@ theorem lostInv_step {cfg : Cfg} {s s' : State} {a : Action} (hi : Inv s) (h : L
           · exact ⟨Or.inl e, this⟩
           · omega
     · simp at hs
-  | pLostAdd t n =>
-    simp only [step] at hs
-    split at hs
-    · rename_i hg
-      simp only [Bool.and_eq_true, beq_iff_eq, decide_eq_true_eq, Option.isNone_iff_eq_none] at hg
-      obtain ⟨⟨⟨_, hpc⟩, hc⟩, hl⟩ := hg
-      obtain ⟨⟨st, hst, hok⟩, hm⟩ := h t
-      simp only [PcOk, hpc] at hok
-      injection hs with hs; subst hs
-      apply lostInv_setProd h
-      refine ⟨⟨st, hst, ?_⟩, hm⟩
-      simp only [PcOk, hpc]
-      rcases hok with ⟨_, h0⟩ | ⟨e, _, _⟩
-      · omega
-      · exact Or.inr ⟨e, by omega, hc⟩
-    · simp at hs
-  | pDrop t r =>
+  | pAbandon t rs cn =>
     simp only [step] at hs
     split at hs
     · rename_i hg
@@ -296,36 +366,22 @@ theorem lostInv_step {cfg : Cfg} {s s' : State} {a : Action} (hi : Inv s) (h : L
         rcases hok with ⟨_, h0⟩ | ⟨e, _⟩
         · omega
         · exact e
-      refine ⟨⟨.run, ?_, by simp [PcOk, hpc]; exact ⟨hl, hc⟩⟩, by simp [marks_append, marks, hm]⟩
+      refine ⟨⟨.run, ?_, by simp only [PcOk, hpc]; right; exact ⟨trivial, by omega, hc⟩⟩,
+        by simp [reports_append, reports_map, hm]⟩
       rw [lrun_append, hst, hst']
-      simp [lrun, lstep]
+      have : ∀ l : List Rec, lrun .run (l.map Ev.dropped) = some .run := by
+        intro l; induction l with
+        | nil => rfl
+        | cons r l ih => simpa [lrun, lstep] using ih
+      simp [this]
     · simp at hs
   | pFinish t =>
     simp only [step] at hs
     split at hs
-    · rename_i hg
-      simp only [Bool.and_eq_true, beq_iff_eq] at hg
-      obtain ⟨_, hpc⟩ := hg
-      obtain ⟨⟨st, hst, hok⟩, hm⟩ := h t
-      simp only [PcOk, hpc] at hok
-      have key : ∀ o, LInv { s.prod t with done := true, curr := none, opn := o } := by
-        intro o
-        refine ⟨⟨st, hst, ?_⟩, hm⟩
-        show PcOk (s.prod t).pc (s.prod t).losts none st
-        rw [hpc]; simp only [PcOk]
-        rcases hok with h1 | ⟨h1, h2, _⟩
-        · exact Or.inl h1
-        · exact Or.inr ⟨h1, h2, trivial⟩
-      cases hc : (s.prod t).curr with
-      | none => simp only [hc] at hs; injection hs with hs; subst hs; exact lostInv_setProd h (key _)
-      | some c =>
-        simp only [hc] at hs
-        have ite_some : ∀ (c : Prop) [Decidable c] (A B : State),
-            (if c then some A else some B) = some s' → s' = A ∨ s' = B := by
-          intro c _ A B h; split at h <;> injection h with h <;> simp [h]
-        rcases ite_some _ _ _ hs with e | e
-        · subst e; exact lostInv_send (lostInv_setProd h (key _))
-        · subst e; exact lostInv_setProd h (key _)
+    · rename_i s1 h1
+      injection hs with hs; subst hs
+      obtain ⟨hl1, hpc1⟩ := lostInv_finishCore h h1
+      exact lostInv_reportTail hl1 hpc1
     · simp at hs
   | pFinishTrigger t =>
     simp only [step] at hs
@@ -562,12 +618,7 @@ theorem nt_step {cfg : Cfg} {s s' : State} {a : Action} (hf : cfg.fixed = true) 
           · subst hit; rfl
         · injection hs with hs; subst hs; exact nt_setProd h (h t).2
     · simp at hs
-  | pLostAdd t n =>
-    simp only [step] at hs
-    split at hs
-    · injection hs with hs; subst hs; exact nt_setProd h (h t).2
-    · simp at hs
-  | pDrop t r =>
+  | pAbandon t rs cn =>
     simp only [step] at hs
     split at hs
     · injection hs with hs; subst hs; exact nt_setProd h (h t).2
@@ -575,16 +626,27 @@ theorem nt_step {cfg : Cfg} {s s' : State} {a : Action} (hf : cfg.fixed = true) 
   | pFinish t =>
     simp only [step] at hs
     split at hs
-    · have ite_some : ∀ (c : Prop) [Decidable c] (A B : State),
-          (if c then some A else some B) = some s' → s' = A ∨ s' = B := by
-        intro c _ A B h; split at h <;> injection h with h <;> simp [h]
-      cases hc : (s.prod t).curr with
-      | none => simp only [hc] at hs; injection hs with hs; subst hs; exact nt_setProd h (h t).2
-      | some c =>
-        simp only [hc] at hs
-        rcases ite_some _ _ _ hs with e | e
-        · subst e; exact nt_send (nt_setProd h (h t).2)
-        · subst e; exact nt_setProd h (h t).2
+    · rename_i s1 h1
+      injection hs with hs; subst hs
+      have hn1 : NT s1 := by
+        simp only [finishCore] at h1
+        split at h1
+        · have ite_some : ∀ (c : Prop) [Decidable c] (A B : State),
+              (if c then some A else some B) = some s1 → s1 = A ∨ s1 = B := by
+            intro c _ A B h; split at h <;> injection h with h <;> simp [h]
+          cases hc : (s.prod t).curr with
+          | none => simp only [hc] at h1; injection h1 with h1; subst h1; exact nt_setProd h (h t).2
+          | some c =>
+            simp only [hc] at h1
+            rcases ite_some _ _ _ h1 with e | e
+            · subst e; exact nt_send (nt_setProd h (h t).2)
+            · subst e; exact nt_setProd h (h t).2
+        · simp at h1
+      unfold reportTail
+      simp only []
+      split
+      · exact nt_send (nt_setProd hn1 (hn1 t).2)
+      · exact hn1
     · simp at hs
   | pFinishTrigger t =>
     simp only [step] at hs
@@ -643,6 +705,214 @@ theorem nt_reachable {cfg : Cfg} {nw : Nat} {s : State} (hf : cfg.fixed = true) 
 theorem clean_of_nt {l : List Item} (h : ∀ it ∈ l, it.isTorn = false) : clean l = l := by
   simp only [clean, List.filter_eq_self]
   intro it hit; simp [h it hit]
+
+/-! ### every loss is reported (with the repaired counting and the report at the end of the thread) -/
+
+/-- LOST counts of `t` still in the pipe -/
+def pendingLost (t : Tid) : List Msg → Nat
+  | [] => 0
+  | .lost t' n :: l => (if t' = t then n else 0) + pendingLost t l
+  | _ :: l => pendingLost t l
+
+/-- what the recorder has added to shmem_lost_count on behalf of `t` -/
+def lostFrom (s : State) (t : Tid) : Nat := ((s.lostLog.filter (fun e => e.1 = t)).map (·.2)).sum
+
+theorem pendingLost_append (t : Tid) (a b : List Msg) : pendingLost t (a ++ b) = pendingLost t a + pendingLost t b := by
+  induction a with
+  | nil => simp [pendingLost]
+  | cons m l ih => cases m <;> simp [pendingLost, ih] <;> omega
+
+/-- accounting: drops of a thread = what it reported + what it still has pending; what it reported = what the
+    recorder counted for it + what is still in the pipe; shmem_lost_count = sum of what was read -/
+structure AInv (cfg : Cfg) (s : State) : Prop where
+  acct : cfg.countFix = true → ∀ t, nDropped (s.prod t).log = (s.prod t).lostMsgs.sum + (s.prod t).losts
+  deliv : ∀ t, lostFrom s t + pendingLost t s.pipe = (s.prod t).lostMsgs.sum
+  total : s.lostCount = (s.lostLog.map (·.2)).sum
+
+/-- a thread that ended through mtd_dtor has nothing pending, unless tracing had been finished before -/
+def TailInv (cfg : Cfg) (s : State) : Prop :=
+  cfg.tailFix = true → ∀ t, (s.prod t).done = true → (s.prod t).losts = 0 ∨ s.pipeClosed = true
+
+def key (p : Prod) : Nat × List Nat × Nat × Bool := (nDropped p.log, p.lostMsgs, p.losts, p.done)
+
+theorem ainv_frame {cfg : Cfg} {s s' : State} (h : AInv cfg s)
+    (hk : ∀ t, nDropped (s'.prod t).log = nDropped (s.prod t).log ∧ (s'.prod t).lostMsgs = (s.prod t).lostMsgs ∧
+      (s'.prod t).losts = (s.prod t).losts)
+    (hp : ∀ t, pendingLost t s'.pipe = pendingLost t s.pipe) (hl : s'.lostLog = s.lostLog)
+    (hc : s'.lostCount = s.lostCount) : AInv cfg s' := by
+  refine ⟨?_, ?_, ?_⟩
+  · intro hf t; obtain ⟨h1, h2, h3⟩ := hk t; rw [h1, h2, h3]; exact h.acct hf t
+  · intro t; obtain ⟨_, h2, _⟩ := hk t
+    rw [h2, hp t]; simp only [lostFrom, hl]; exact h.deliv t
+  · rw [hc, hl]; exact h.total
+
+theorem tail_frame {cfg : Cfg} {s s' : State} (h : TailInv cfg s)
+    (hk : ∀ t, (s'.prod t).losts = (s.prod t).losts ∧ (s'.prod t).done = (s.prod t).done)
+    (hcl : s.pipeClosed = true → s'.pipeClosed = true) : TailInv cfg s' := by
+  intro hf t hd
+  obtain ⟨h3, h4⟩ := hk t
+  rw [h3]; rcases h hf t (by rw [← h4]; exact hd) with e | e
+  · exact Or.inl e
+  · exact Or.inr (hcl e)
+
+/-- both, when every thread keeps its `key` and the recorder's LOST bookkeeping is untouched -/
+theorem both_frame {cfg : Cfg} {s s' : State} (h : AInv cfg s ∧ TailInv cfg s)
+    (hk : ∀ t, key (s'.prod t) = key (s.prod t))
+    (hp : ∀ t, pendingLost t s'.pipe = pendingLost t s.pipe) (hl : s'.lostLog = s.lostLog)
+    (hc : s'.lostCount = s.lostCount) (hcl : s.pipeClosed = true → s'.pipeClosed = true) :
+    AInv cfg s' ∧ TailInv cfg s' := by
+  have hk' : ∀ t, nDropped (s'.prod t).log = nDropped (s.prod t).log ∧ (s'.prod t).lostMsgs = (s.prod t).lostMsgs ∧
+      (s'.prod t).losts = (s.prod t).losts ∧ (s'.prod t).done = (s.prod t).done := by
+    intro t; have := hk t; unfold key at this
+    injection this with a b; injection b with b c; injection c with c d
+    exact ⟨a, b, c, d⟩
+  exact ⟨ainv_frame h.1 (fun t => ⟨(hk' t).1, (hk' t).2.1, (hk' t).2.2.1⟩) hp hl hc,
+         tail_frame h.2 (fun t => ⟨(hk' t).2.2.1, (hk' t).2.2.2⟩) hcl⟩
+
+theorem key_setProd {s : State} {t : Tid} {p' : Prod} (hp : key p' = key (s.prod t)) (x : Tid) :
+    key ((s.setProd t p').prod x) = key (s.prod x) := by
+  by_cases hx : x = t
+  · subst hx; simpa using hp
+  · rw [setProd_prod_ne _ _ hx]
+
+theorem pendingLost_send {s : State} {m : Msg} (t : Tid) (hm : pendingLost t [m] = 0) :
+    pendingLost t (s.send m).pipe = pendingLost t s.pipe := by
+  unfold State.send; split
+  · rfl
+  · simp [pendingLost_append, hm]
+
+@[simp] theorem send_lostLog (s : State) (m : Msg) : (s.send m).lostLog = s.lostLog := by
+  unfold State.send; split <;> rfl
+@[simp] theorem send_lostCount (s : State) (m : Msg) : (s.send m).lostCount = s.lostCount := by
+  unfold State.send; split <;> rfl
+@[simp] theorem send_closed' (s : State) (m : Msg) : (s.send m).pipeClosed = s.pipeClosed := by
+  unfold State.send; split <;> rfl
+
+/-- producer step: `s.setProd t p'` with the same key, optionally followed by a message that is not LOST -/
+theorem both_setProd {cfg : Cfg} {s : State} {t : Tid} {p' : Prod} (h : AInv cfg s ∧ TailInv cfg s)
+    (hp : key p' = key (s.prod t)) : AInv cfg (s.setProd t p') ∧ TailInv cfg (s.setProd t p') :=
+  both_frame h (key_setProd hp) (fun _ => rfl) rfl rfl id
+
+theorem both_send {cfg : Cfg} {s : State} {m : Msg} (h : AInv cfg s ∧ TailInv cfg s)
+    (hm : ∀ t, pendingLost t [m] = 0) : AInv cfg (s.send m) ∧ TailInv cfg (s.send m) :=
+  both_frame h (fun t => by rw [send_prod]) (fun t => pendingLost_send t (hm t)) (by simp) (by simp) (by simp)
+
+theorem both_recordMmap {cfg : Cfg} {s : State} {wb : WBuf} (h : AInv cfg s ∧ TailInv cfg s) :
+    AInv cfg (recordMmap s wb) ∧ TailInv cfg (recordMmap s wb) := by
+  unfold recordMmap
+  split
+  · exact h
+  · split
+    · exact both_frame h (fun _ => rfl) (fun _ => rfl) rfl rfl id
+    · exact h
+
+theorem both_writeOut {cfg : Cfg} {s : State} {wb : WBuf} {fl : Bool} {pool : Pool} (h : AInv cfg s ∧ TailInv cfg s) :
+    AInv cfg (writeOut { s with pool := pool } wb fl) ∧ TailInv cfg (writeOut { s with pool := pool } wb fl) := by
+  unfold writeOut
+  cases hb : (s.prod wb.tid).bufs[wb.idx]? with
+  | none => simp only [hb]; exact both_frame h (fun _ => rfl) (fun _ => rfl) rfl rfl id
+  | some b =>
+    simp only [hb]
+    apply both_frame h
+    · intro x
+      by_cases hx : x = wb.tid
+      · subst hx; simp [State.setProd, key]
+      · simp [State.setProd, hx]
+    · intro _; rfl
+    · rfl
+    · rfl
+    · exact id
+
+theorem rec_msgs_not_lost (t x : Tid) (i : Nat) :
+    pendingLost x [Msg.recStart t i] = 0 ∧ pendingLost x [Msg.recEnd t i] = 0 ∧ pendingLost x [Msg.finish] = 0 := by
+  simp [pendingLost]
+
+/-- thread `t0` took a step that matters; the recorder's LOST bookkeeping is untouched -/
+theorem both_of {cfg : Cfg} {s s' : State} (h : AInv cfg s ∧ TailInv cfg s) (t0 : Tid)
+    (hother : ∀ t, t ≠ t0 → s'.prod t = s.prod t)
+    (hpo : ∀ t, t ≠ t0 → pendingLost t s'.pipe = pendingLost t s.pipe)
+    (hl : s'.lostLog = s.lostLog) (hc : s'.lostCount = s.lostCount)
+    (hcl : s.pipeClosed = true → s'.pipeClosed = true)
+    (hacct : cfg.countFix = true → nDropped (s'.prod t0).log = (s'.prod t0).lostMsgs.sum + (s'.prod t0).losts)
+    (htail : cfg.tailFix = true → (s'.prod t0).done = true → (s'.prod t0).losts = 0 ∨ s'.pipeClosed = true)
+    (hdel : lostFrom s t0 + pendingLost t0 s'.pipe = (s'.prod t0).lostMsgs.sum) :
+    AInv cfg s' ∧ TailInv cfg s' := by
+  refine ⟨⟨?_, ?_, ?_⟩, ?_⟩
+  · intro hf t
+    by_cases ht : t = t0
+    · subst ht; exact hacct hf
+    · rw [hother t ht]; exact h.1.acct hf t
+  · intro t
+    by_cases ht : t = t0
+    · subst ht; simp only [lostFrom, hl]; exact hdel
+    · rw [hother t ht, hpo t ht]; simp only [lostFrom, hl]; exact h.1.deliv t
+  · rw [hc, hl]; exact h.1.total
+  · intro hf t hd
+    by_cases ht : t = t0
+    · subst ht; exact htail hf hd
+    · rw [hother t ht] at hd ⊢
+      rcases h.2 hf t hd with e | e
+      · exact Or.inl e
+      · exact Or.inr (hcl e)
+
+theorem pendingLost_lost_self (t n : Nat) : pendingLost t [Msg.lost t n] = n := by simp [pendingLost]
+theorem pendingLost_lost_other {t x : Tid} (n : Nat) (h : x ≠ t) : pendingLost x [Msg.lost t n] = 0 := by
+  simp [pendingLost, Ne.symm h]
+
+theorem both_reportTail {cfg : Cfg} {s : State} {t : Tid} (ha : AInv cfg s)
+    (hother : ∀ x, x ≠ t → (s.prod x).done = true → (s.prod x).losts = 0 ∨ s.pipeClosed = true)
+    (hcf : cfg.tailFix = true → True) :
+    AInv cfg (reportTail cfg t s) ∧
+    (cfg.tailFix = true → ∀ x, ((reportTail cfg t s).prod x).done = true →
+      (x = t ∨ True) → (x ≠ t → ((reportTail cfg t s).prod x).losts = 0 ∨ (reportTail cfg t s).pipeClosed = true)) := by
+  constructor
+  · unfold reportTail
+    simp only []
+    split
+    · rename_i hg
+      simp only [Bool.and_eq_true, Bool.not_eq_true', decide_eq_true_eq] at hg
+      have hcl := hg.2
+      rw [send_open _ (by simpa using hcl)]
+      refine ⟨?_, ?_, ha.total⟩
+      · intro hf x
+        by_cases hx : x = t
+        · subst hx
+          have := ha.acct hf x
+          simp [State.setProd, nDropped_append, nDropped, List.sum_append]
+          omega
+        · simp only [State.setProd, hx, if_false]; exact ha.acct hf x
+      · intro x
+        by_cases hx : x = t
+        · subst hx
+          have := ha.deliv x
+          simp only [lostFrom] at this ⊢
+          simp [State.setProd, pendingLost_append, pendingLost, List.sum_append]
+          omega
+        · have := ha.deliv x
+          simp only [lostFrom] at this ⊢
+          simp [State.setProd, hx, pendingLost_append, pendingLost, Ne.symm hx]
+          omega
+    · exact ha
+  · intro _ x hd _ hx
+    have hp : (reportTail cfg t s).prod x = s.prod x := by
+      unfold reportTail; simp only []; split
+      · rw [send_prod]; exact setProd_prod_ne _ _ hx
+      · rfl
+    have hc : (reportTail cfg t s).pipeClosed = s.pipeClosed := by
+      unfold reportTail; simp only []; split <;> simp
+    rw [hp] at hd ⊢; rw [hc]; exact hother x hx hd
+
+theorem reportTail_tail {cfg : Cfg} {s : State} {t : Tid} (hf : cfg.tailFix = true) :
+    ((reportTail cfg t s).prod t).losts = 0 ∨ (reportTail cfg t s).pipeClosed = true := by
+  unfold reportTail
+  simp only [hf, Bool.true_and]
+  split
+  · left; rw [send_prod]; simp
+  · rename_i hg
+    simp only [Bool.and_eq_true, decide_eq_true_eq, Bool.not_eq_true', not_and, Bool.not_eq_false] at hg
+    by_cases hl : (s.prod t).losts > 0
+    · exact Or.inr (hg hl)
+    · left; omega
 
 end Uft.Shmem
 
